@@ -572,11 +572,20 @@ func (w *c07World) actForward(t *rapid.T) error {
 		if len(cand) > 0 && rapid.IntRange(0, 9).Draw(t, "replay") < 5 {
 			h = rapid.SampledFrom(cand).Draw(t, "replayOf")
 		} else {
-			targets := []uint64{1, 2, 3, 1, 2, 3, 1, 2, 3,
-				c07UnknownChan}
+			// mostly another channel; sometimes the incoming one
+			// (circular) or a channel the switch does not know
+			others := []uint64{uint64(c%c07NumChans) + 1,
+				uint64((c+1)%c07NumChans) + 1}
+			target := rapid.SampledFrom(others).Draw(t, "target")
+			switch rapid.IntRange(0, 13).Draw(t, "targetKind") {
+			case 12:
+				target = uint64(c)
+			case 13:
+				target = c07UnknownChan
+			}
 			h = &c07Htlc{
 				in:     c07Key(uint64(c), w.ls[c].nextIn),
-				target: rapid.SampledFrom(targets).Draw(t, "target"),
+				target: target,
 				hash: c07Hashes[rapid.IntRange(0, 2).Draw(t,
 					"hash")],
 			}
@@ -634,11 +643,11 @@ func (w *c07World) actOutProcess(t *rapid.T) error {
 		}
 		h := w.htlcs[in]
 		switch rapid.IntRange(0, 9).Draw(t, "outDecision") {
-		case 0, 1:
+		case 8:
 			// leave it in the mailbox
 			desc = append(desc, c07KeyStr(in)+"=leave")
 
-		case 2, 3:
+		case 9:
 			// channel.AddHTLC failed: fail back through the switch
 			w.mailbox(c).FailAdd(pkt)
 			h.inOutBox = false
@@ -668,11 +677,22 @@ func (w *c07World) actOutProcess(t *rapid.T) error {
 	}
 	w.logf("outProcess(link%d)[%s]", c, strings.Join(desc, " "))
 
-	return w.settle(exp)
+	if err := w.settle(exp); err != nil {
+		return err
+	}
+	// Usually the link signs a commitment right away.
+	if rapid.IntRange(0, 9).Draw(t, "commitNow") < 6 {
+		return w.outCommit(c)
+	}
+
+	return nil
 }
 
 func (w *c07World) actOutCommit(t *rapid.T) error {
-	c := rapid.IntRange(1, c07NumChans).Draw(t, "commitLink")
+	return w.outCommit(rapid.IntRange(1, c07NumChans).Draw(t, "commitLink"))
+}
+
+func (w *c07World) outCommit(c int) error {
 	ls := w.ls[c]
 	ls.watermark = ls.nextOut
 	n := 0
@@ -746,6 +766,20 @@ func (w *c07World) actRespond(t *rapid.T) error {
 	for i := 0; i < n; i++ {
 		id := uint64(rapid.IntRange(0, int(w.ls[c].watermark)-1).Draw(t,
 			"respID"))
+		// prefer HTLCs that are still in flight on this channel
+		var live []uint64
+		for _, in := range w.order {
+			x := w.htlcs[in]
+			if x.exists && x.out != nil &&
+				x.out.ChanID.ToUint64() == uint64(c) &&
+				x.out.HtlcID < w.ls[c].watermark {
+
+				live = append(live, x.out.HtlcID)
+			}
+		}
+		if len(live) > 0 && rapid.IntRange(0, 9).Draw(t, "live") < 7 {
+			id = rapid.SampledFrom(live).Draw(t, "liveID")
+		}
 		settle := rapid.Bool().Draw(t, "settle")
 		out := c07Key(uint64(c), id)
 
@@ -903,13 +937,13 @@ func TestVerifC07Switch(t *testing.T) {
 			kind := rapid.IntRange(0, 99).Draw(t, "action")
 			var err error
 			switch {
-			case kind < 25:
+			case kind < 22:
 				err = w.actForward(t)
-			case kind < 45:
+			case kind < 44:
 				err = w.actOutProcess(t)
-			case kind < 57:
+			case kind < 50:
 				err = w.actOutCommit(t)
-			case kind < 72:
+			case kind < 70:
 				err = w.actRespond(t)
 			case kind < 80:
 				err = w.actInCommit(t)
@@ -917,7 +951,7 @@ func TestVerifC07Switch(t *testing.T) {
 				err = w.actOutRestart(t)
 			case kind < 90:
 				err = w.actReplayAll(t)
-			case kind < 93:
+			case kind < 92:
 				err = w.actToggle(t)
 			default:
 				err = w.actSwitchRestart(t)
